@@ -523,8 +523,9 @@ class C17(Prop):
             if a.startswith('OK') and b.startswith('OK') and ns == ne and ns < rank and mode != 'incl':
                 ia = a[3:].split('|')[0].split()
                 ib = b[3:].split('|')[0].split()
-                if len(ia) == len(ib) == rank and ia[:ns] == ib[:ns] and \
-                        all(int(x) == int(y) - 1 for x, y in zip(ia[ns:], ib[ns:])):
+                # every unspecified dimension has lost its last element (one of extent 1 keeps it: a point request)
+                if len(ia) == len(ib) == rank and ia[:ns] == ib[:ns] and ia != ib and \
+                        all(int(x) == int(y) - 1 or (x == y == '1') for x, y in zip(ia[ns:], ib[ns:])):
                     return {'defect': 'unspecified-dim-exclusive-loses-last', 'kind': 'slice'}
             if a.startswith('OK') and b.startswith('ERR') and ns == ne == rank:
                 st, en = secs[0].split(), secs[1].split()
